@@ -130,6 +130,15 @@ func progBlockEnv() []byte { // stores TIMESTAMP, NUMBER, COINBASE, GASLIMIT and
 	a.push(0).op(opMSTORE).push(32).push(0).op(opRETURN)
 	return a.b
 }
+func progPickyReceiver() []byte { // accepts a call that carries value, reverts one that carries none
+	return []byte{0x34, 0x15, 0x60, 0x07, 0x57, 0x00, 0x00, 0x5b, 0x60, 0x00, 0x60, 0x00, 0xfd}
+}
+func progRetryCaller() []byte { // calls calldata[0] first without value (the callee may revert), then with the whole call value; stores the second outcome at slot 0
+	a := &asm{}
+	a.push(0).push(0).push(0).push(0).push(0).push(0).op(opCALLDATALOAD).op(opGAS).op(opCALL).op(opPOP)
+	a.push(0).push(0).push(0).push(0).op(opCALLVALUE).push(0).op(opCALLDATALOAD).op(opGAS).op(opCALL).push(0).op(opSSTORE).op(opSTOP)
+	return a.b
+}
 func progBalanceReader() []byte { // stores BALANCE(calldata[0]) at slot 0 and returns it
 	a := &asm{}
 	a.push(0).op(opCALLDATALOAD).op(opBALANCE).op(opDUP1).push(0).op(opSSTORE).push(0).op(opMSTORE).push(32).push(0).op(opRETURN)
@@ -201,6 +210,7 @@ func (s *Sim) evmScenario(hs *EvmStats) error {
 			return fmt.Errorf("BeginBlock panicked: %s", p)
 		}
 		ntx := 1 + r.Intn(4)
+		refPool := new(ethcore.GasPool).AddGas(25_000_000) // the EVM gas pool of the block, as the reference keeps it
 		for i := 0; i < ntx; i++ {
 			from := s.pick(s.users)
 			var spec *TxSpec
@@ -213,7 +223,7 @@ func (s *Sim) evmScenario(hs *EvmStats) error {
 					n string
 					c []byte
 				}{{"store", progStore(r)}, {"forward", progForward()}, {"reverter", progReverter()}, {"call-then-store", progCallThenStore()},
-					{"factory", progFactory(progStore(r))}, {"suicide", progSuicide()}, {"balance-reader", progBalanceReader()}, {"forward-all", progForwardAll()}, {"block-env", progBlockEnv()}}
+					{"factory", progFactory(progStore(r))}, {"suicide", progSuicide()}, {"balance-reader", progBalanceReader()}, {"forward-all", progForwardAll()}, {"block-env", progBlockEnv()}, {"picky-receiver", progPickyReceiver()}, {"retry-caller", progRetryCaller()}}
 				p := progs[r.Intn(len(progs))]
 				name = "deploy:" + p.n
 				spec = s.baseTx(6, from, make([]byte, 20))
@@ -225,8 +235,18 @@ func (s *Sim) evmScenario(hs *EvmStats) error {
 				name = "call:" + progOf[c]
 				spec = s.baseTx(6, from, c[:])
 				arg := word(big.NewInt(int64(r.Intn(50))).Bytes())
+				if progOf[c] == "retry-caller" {
+					for _, x := range contracts {
+						if progOf[x] == "picky-receiver" {
+							arg = word(x[:])
+						}
+					}
+				}
 				switch r.Intn(4) {
 				case 0:
+					if progOf[c] == "retry-caller" {
+						break
+					}
 					arg = word(contracts[r.Intn(len(contracts))][:])
 				case 1:
 					arg = word(s.pick(s.all).Addr)
@@ -254,6 +274,11 @@ func (s *Sim) evmScenario(hs *EvmStats) error {
 			spec.Gas = uint64(300000 + r.Intn(700000))
 			if r.Intn(12) == 0 {
 				spec.Gas = uint64(21000 + r.Intn(40000)) // often runs out of gas
+			}
+			if isCall := len(name) > 5 && name[:5] == "call:"; isCall && r.Intn(10) == 0 {
+				// a gas limit of the order of the block's pool: the second such call of a block does not fit
+				spec.Gas = uint64(12000000 + r.Intn(13000001))
+				name += ":huge-gas-limit"
 			}
 			if spec.Type == 1 && len(name) > 12 && name[:12] == "transfer-to:" && r.Intn(4) == 0 {
 				// admitted by the node (at least the governance minimum) but below the EVM's intrinsic gas:
@@ -309,7 +334,7 @@ func (s *Sim) evmScenario(hs *EvmStats) error {
 				if ref.GetBalance(fromA).Cmp(need) < 0 {
 					refErr = fmt.Errorf("sender cannot cover gas limit x price + amount (admission rule)")
 				} else {
-					refRes, refErr = ethcore.ApplyMessage(vm, msg, new(ethcore.GasPool).AddGas(25_000_000))
+					refRes, refErr = ethcore.ApplyMessage(vm, msg, refPool)
 				}
 				refLogs = ref.GetLogs(common.BytesToHash(bt.Hash), common.Hash{})
 			}
